@@ -38,6 +38,26 @@ def run(chk, tier, seed):
                               f"import sys, os; sys.path.insert(0, {REPO!r}); sys.path.insert(0, '/verif')\nfrom wcmatch import pathlib, glob\nfrom vlib.harness import trees\n"
                               f"with trees.Tree({specs[r['tree']]!r}) as t:\n    os.chdir(t.root)\n    print(sorted(str(x) for x in pathlib.Path('.').rglob({r['pattern']!r}, flags={r['flags']})))\n"
                               f"    print(sorted(str(x) for x in pathlib.Path('.').glob({r['pattern']!r}, flags={r['flags']})))\n    os.chdir('/')\nsys.exit(1)\n")
+    # names ending in a backslash / backslash-dot are ordinary names for the concrete Posix class: Path.glob returns what glob.glob returns
+    import tempfile
+    import shutil
+    import os
+    from wcmatch import glob as GG
+    tmpb = tempfile.mkdtemp(prefix='c16-')
+    try:
+        for f in ('x\\', 'x\\.', 'w\\', 'plain'):
+            open(os.path.join(tmpb, f), 'w').close()
+        for p, fl in (('x*', 0), ('*', 0), ('*', PL.O), ('**', PL.G)):
+            got = sorted(str(x.relative_to(tmpb)) for x in PL.Path(tmpb).glob(p, flags=fl))
+            want = sorted(GG.glob(p, flags=fl | GG.U, root_dir=tmpb))
+            chk.case(key=('backslash-names', p, fl))
+            if got != want or len(got) != len(set(got)):
+                chk.violation(dict(obligation='C16.bounded.Path.glob-differs-from-glob.glob', tree='(backslash names)', pattern=p, fl=globrun.LC.flagnames(fl), witness=str(sorted(set(got) ^ set(want))[:1])),
+                              f'Path.glob({p!r}) on files x\\, x\\., w\\, plain: {got}, glob.glob: {want}',
+                              f"import sys, os, tempfile; sys.path.insert(0, {REPO!r})\nfrom wcmatch import pathlib\nd = tempfile.mkdtemp()\nfor f in ('x\\\\', 'x\\\\.'):\n    open(os.path.join(d, f), 'w').close()\n"
+                              f"got = sorted(str(x) for x in pathlib.Path(d).glob('x*'))\nprint(got)\nsys.exit(0 if len(got) == 2 else 1)\n")
+    finally:
+        shutil.rmtree(tmpb, ignore_errors=True)
     chk.rule = ('bounded stand-in: for every (tree, pattern, flags): list(Path.glob) == [root/x for x in glob.glob(root_dir=root, flags|_NOABSOLUTE|_PATHLIB)] for the root and a '
                 'sub-directory; rglob == glob with the implicit recursive prefix; user FORCEWIN/FORCEUNIX ignored; no duplicates unless NOUNIQUE; q.match(p, REALPATH) <=> q in '
                 'Path(".").rglob(p) for every entry of the tree plus everything rglob returned; globmatch/full_match == glob.globmatch(str [+sep]); Pure classes == FORCEUNIX/FORCEWIN; '
